@@ -241,6 +241,28 @@ fn name_main_event_4() {
     }
 }
 
+// name_main_event_4 does not finish here (> 55 min).  The part of it that does not run the table-driven parsers:
+// a 4-byte name whose first letter is none of A, B, C, P, T, M is rejected; with A / T / M it is accepted exactly for the one
+// fixed name of that family.  (B, C and P hand over to the Alpha16 / PadWing parsers, which have their own harnesses.)
+#[kani::proof]
+#[kani::unwind(12)]
+fn name_main_event_dispatch() {
+    use crate::midas::*;
+    let b: [u8; 4] = kani::any();
+    kani::assume(b[0] != b'B' && b[0] != b'C' && b[0] != b'P');
+    if let Ok(name) = core::str::from_utf8(&b) {
+        let r = MainEventBankName::try_from(name);
+        assert!(r.is_ok() == (&b == b"ATAT" || &b == b"TRBA" || &b == b"MCVX"));
+        match r {
+            Ok(MainEventBankName::Trg(_)) => assert!(&b == b"ATAT"),
+            Ok(MainEventBankName::Trb3(_)) => assert!(&b == b"TRBA"),
+            Ok(MainEventBankName::McVertex(_)) => assert!(&b == b"MCVX"),
+            Ok(_) => assert!(false),
+            Err(_) => {}
+        }
+    }
+}
+
 // other lengths (bounded: 0..=8 bytes): never a panic, always rejected
 #[kani::proof]
 #[kani::unwind(12)]
